@@ -160,6 +160,24 @@ def enumerate_cases(tier):
                         comp = _subst(t2, t1)
                         yield {"cfg": cfg, "tree": comp, "nargs": 2, "args": args, "ncallees": 0, "symbolic": False, "callee_sym": False}
 
+    # every spelling of every blade of grade >= 2 read as a coefficient inside a registered function (d = 3 and d = 4): even
+    # permutations other than the identity exist from grade 3 on only and are 1 in 3 / 11 in 24 of the random spellings of
+    # one blade that the random trees rarely pick at all (seeded C11-11: every reordered spelling negated)
+    import itertools
+    for cfg in ({"sig": [0, 1, 1], "start": None, "basis": None}, {"sig": [1, 1, 1, -1], "start": None, "basis": None}):
+        d = len(cfg["sig"])
+        n = 2 ** d
+        dense = {"cls": "perm", "keys": list(range(n - 1, -1, -1)), "vals": [str(2 * i + 3) for i in range(n)]}
+        other = {"cls": "sparse", "keys": [1, 2], "vals": ["1", "-2"]}
+        for key in range(n):
+            bits = [j for j in range(d) if key >> j & 1]
+            if len(bits) < 2:
+                continue
+            for sp in itertools.permutations(bits):
+                for form, sym in (("c*t", False), ("t*c", True)):
+                    yield {"cfg": cfg, "tree": ["coef", ["arg", 0], list(sp), form, ["arg", 1]], "nargs": 2, "args": [dense, other],
+                           "ncallees": 0, "symbolic": sym, "callee_sym": False}
+
 
 def _subst(tree, repl):
     if tree[0] == "arg":
